@@ -12,6 +12,7 @@ of the model's list: equal lists hash equally for any hasher (`C16_hash_coherent
 Theorems hold for all segment lists (no canonical-form hypothesis), over any linear order.
 -/
 import PubgrubProofs.RangeOrd
+import PubgrubProofs.ContainersLaws
 
 set_option linter.unusedSectionVars false
 namespace Pubgrub.C16
@@ -45,5 +46,33 @@ theorem C16_hash_coherent {H : Type} (hasher : Nat → List (Seg V) → H) (a b 
 /-! Non-vacuity -/
 example : Range.cmp (Range.between (1 : Nat) 3) (Range.between 1 3) = .eq :=
   (C16_cmp_eq_iff _ _).2 rfl
+
+/-! ### the storage of a `Range`: `SmallVec` (exact model, PubgrubModel/Containers.lean)
+
+"Equal ranges hash equally": `Range` derives `Hash`/`Eq` from its `SmallVec` of segments, whose `==`
+compares slices and whose `Hash` feeds the length and the slice.  For every history of `push` / `pop` /
+`clear` the slice is what a plain list doing the same holds, so two histories ending in the same slice
+give `==` vectors that feed the hasher identically, whatever variants (`Empty`/`One`/`Two`/`Flexible`)
+they ended in. -/
+section Storage
+variable {T : Type}
+
+theorem C16_smallvec_history (s : SmallVecX T) (ops : List (SmallVecX.Op T)) :
+    (SmallVecX.run s ops).toList = SmallVecX.runList s.toList ops :=
+  SmallVecX.toList_run s ops
+
+theorem C16_smallvec_eq_iff [DecidableEq T] (a b : SmallVecX T) : a.beq b = true ↔ a.toList = b.toList :=
+  SmallVecX.beq_iff a b
+
+theorem C16_equal_vectors_hash_equally [DecidableEq T] (a b : SmallVecX T) (h : a.beq b = true) :
+    a.hashFeed = b.hashFeed :=
+  SmallVecX.hashFeed_eq_of_beq a b h
+
+theorem C16_hash_independent_of_history (ops1 ops2 : List (SmallVecX.Op T))
+    (h : SmallVecX.runList [] ops1 = SmallVecX.runList [] ops2) :
+    (SmallVecX.run (.empty : SmallVecX T) ops1).hashFeed = (SmallVecX.run .empty ops2).hashFeed :=
+  SmallVecX.hashFeed_run_eq ops1 ops2 h
+
+end Storage
 
 end Pubgrub.C16
